@@ -150,6 +150,9 @@ pub struct World {
     pub expr: Expr,
     /// every hash of the expression that is not a leaf (root included unless n = 1)
     pub inner: Vec<Bytes>,
+    /// does the harness' own description of the hash structure reproduce the real root? It is needed
+    /// only to *make* the designed same-root forgeries; every oracle works without it.
+    pub reference_ok: bool,
 }
 
 pub fn leaf_name(i: usize) -> Bytes {
@@ -162,12 +165,18 @@ pub fn outsider() -> Bytes {
 impl World {
     pub fn new(leaves: Vec<Bytes>) -> Result<World, String> {
         let nodes: Vec<MKTreeNode> = leaves.iter().map(|l| MKTreeNode::new(l.clone())).collect();
-        let tree = MKTree::<MKTreeStoreInMemory>::new(&nodes).map_err(|e| format!("MKTree::new: {e}"))?;
-        let root = tree.compute_root().map_err(|e| format!("compute_root: {e}"))?.to_vec();
+        // the real code may panic after a change: that is a failure to build, not a harness crash
+        let (tree, root) = catch(|| -> Result<_, String> {
+            let tree = MKTree::<MKTreeStoreInMemory>::new(&nodes).map_err(|e| format!("MKTree::new: {e}"))?;
+            let root = tree.compute_root().map_err(|e| format!("compute_root: {e}"))?.to_vec();
+            Ok((tree, root))
+        })
+        .map_err(|p| format!("panic: {p}"))??;
         let expr = root_expr(&leaves);
         let mut inner = vec![];
         inner_hashes(&expr, &mut inner);
-        Ok(World { leaves, tree, root, expr, inner })
+        let reference_ok = expr.hash == root;
+        Ok(World { leaves, tree, root, expr, inner, reference_ok })
     }
     pub fn members(n: usize) -> Result<World, String> {
         World::new((0..n).map(leaf_name).collect())
@@ -180,7 +189,7 @@ impl World {
     }
     pub fn honest(&self, idx: &[usize]) -> Result<MKProof, String> {
         let sel: Vec<MKTreeNode> = idx.iter().map(|&i| MKTreeNode::new(self.leaves[i].clone())).collect();
-        self.tree.compute_proof(&sel).map_err(|e| format!("{e}"))
+        catch(|| self.tree.compute_proof(&sel).map_err(|e| format!("{e}"))).map_err(|p| format!("panic: {p}"))?
     }
 }
 
@@ -328,15 +337,17 @@ pub fn honest_sweep(n: usize) -> Report {
     let w = match World::members(n) {
         Ok(w) => w,
         Err(e) => {
-            rep.machinery_error(format!("cannot build MKTree of {n} leaves: {e}"));
+            // completeness is part of C09: a list that cannot be committed has no verifying proof
+            rep.eval();
+            violation(&mut rep, "C09/mkproof:honest-proof-rejected", || {
+                (format!("a tree of {n} leaves cannot be built or its root computed: {e}"), json!({"part": "mkproof-honest", "n": n}))
+            });
             return rep;
         }
     };
-    if w.expr.hash != w.root {
-        // the harness' description of the hash structure is only used to make candidates, but if it
-        // is off the designed forgeries would be vacuous
-        rep.machinery_error(format!("reference root expression differs from MKTree::compute_root for n={n}"));
-        return rep;
+    if !w.reference_ok {
+        // recorded, not fatal: only the designed same-root forgeries need the reference structure
+        rep.add_extra("mktree_sizes_where_reference_structure_differs", 1);
     }
     for mask in 1u32..(1u32 << n) {
         let idx = subset_indices(mask, n);
@@ -497,8 +508,7 @@ pub fn mutations(c: &PProof, m: &Material) -> Vec<(String, PProof)> {
 pub fn mutation_sweep(n: usize, mask: u32, depth: usize, chunk: usize, chunks: usize) -> Report {
     let mut rep = Report::new("exploration", "");
     let Ok(w) = World::members(n) else {
-        rep.machinery_error(format!("cannot build MKTree of {n} leaves"));
-        return rep;
+        return rep; // reported by the honest sweep as a completeness violation
     };
     let m = material(&w);
     let idx = subset_indices(mask, n);
@@ -529,9 +539,13 @@ pub fn mutation_sweep(n: usize, mask: u32, depth: usize, chunk: usize, chunks: u
 pub fn frontier_sweep(n: usize) -> Report {
     let mut rep = Report::new("exploration", "");
     let Ok(w) = World::members(n) else {
-        rep.machinery_error(format!("cannot build MKTree of {n} leaves"));
-        return rep;
+        return rep; // reported by the honest sweep as a completeness violation
     };
+    if !w.reference_ok {
+        // the frontiers are cuts of the harness' reference expression: without it there is nothing to cut
+        rep.add_extra("designed_forgery_families_skipped_without_reference_structure", 1);
+        return rep;
+    }
     let mut fs = frontiers(&w.expr);
     fs.sort();
     fs.dedup();
@@ -603,6 +617,10 @@ pub fn replay(rep: &mut Report, v: &Value) {
         rep.merge(honest_sweep(v["n"].as_u64().unwrap_or(1) as usize));
         return;
     }
+    if v["part"] == "mktree-root" {
+        rep.merge(root_commitment_sweep(v["n"].as_u64().unwrap_or(1) as usize));
+        return;
+    }
     let leaves: Vec<Bytes> = v["committed"].as_array().map(|a| a.iter().map(|s| hex::decode(s.as_str().unwrap_or("")).expect("hex")).collect()).unwrap_or_default();
     let w = World::new(leaves).expect("world");
     let p = PProof::from_json(&v["proof"]);
@@ -613,13 +631,18 @@ pub fn replay(rep: &mut Report, v: &Value) {
 /// larger sizes: selected subsets (same selection as for the STM tree), honest proof plus its single mutations
 pub fn large_size_sweep(n: usize, mutate: bool) -> Report {
     let mut rep = Report::new("exploration", "");
-    let Ok(w) = World::members(n) else {
-        rep.machinery_error(format!("cannot build MKTree of {n} leaves"));
-        return rep;
+    let w = match World::members(n) {
+        Ok(w) => w,
+        Err(e) => {
+            rep.eval();
+            violation(&mut rep, "C09/mkproof:honest-proof-rejected", || {
+                (format!("a tree of {n} leaves cannot be built or its root computed: {e}"), json!({"part": "mkproof-large", "n": n}))
+            });
+            return rep;
+        }
     };
-    if w.expr.hash != w.root {
-        rep.machinery_error(format!("reference root expression differs from MKTree::compute_root for n={n}"));
-        return rep;
+    if !w.reference_ok {
+        rep.add_extra("mktree_sizes_where_reference_structure_differs", 1);
     }
     let m = material(&w);
     for idx in crate::c09_stm::selected_subsets(n) {
@@ -639,6 +662,54 @@ pub fn large_size_sweep(n: usize, mutate: bool) -> Report {
             for (label, c) in mutations(&p, &m) {
                 eval_proof(&mut rep, &w, &c, &label, true);
             }
+        }
+    }
+    rep
+}
+
+/// Structure-independent soundness, through the real API only: the root commits to every leaf.
+/// For every position j the tree over L and the tree over L' (= L with leaf j replaced by a value that
+/// occurs nowhere else) must have different roots; if they are equal, the proof the real code makes for
+/// L'_j from tree(L') is checked against root(L) and, when it verifies, reported.
+pub fn root_commitment_sweep(n: usize) -> Report {
+    let mut rep = Report::new("exploration", "");
+    let Ok(w) = World::members(n) else {
+        return rep; // reported by the honest / large-size sweep
+    };
+    for j in 0..n {
+        rep.eval();
+        rep.nontrivial(&("mk-root-commits", n, j));
+        let mut l2 = w.leaves.clone();
+        l2[j] = format!("6tx-never-used-{j}").into_bytes();
+        let Ok(w2) = World::new(l2.clone()) else {
+            rep.outcome("mktree:root-commitment:variant-cannot-be-built");
+            continue;
+        };
+        if w2.root != w.root {
+            rep.outcome("mktree:root-differs-when-a-leaf-is-replaced");
+            continue;
+        }
+        rep.outcome("mktree:root-unchanged-when-a-leaf-is-replaced");
+        // confirm: the foreign leaf is provable against the committed root
+        let confirmed = w2
+            .honest(&[j])
+            .ok()
+            .map(|p| {
+                catch(|| p.verify().is_ok() && p.root().to_vec() == w.root && p.contains(&[MKTreeNode::new(l2[j].clone())]).is_ok()).unwrap_or(false)
+            })
+            .unwrap_or(false);
+        if confirmed {
+            violation(&mut rep, "C09/mktree:root-does-not-commit-to-leaf", || {
+                (
+                    format!(
+                        "MKTree of {n} leaves: replacing leaf #{j} by {:?} leaves the root unchanged, and the proof generated for the replacement verifies against the root of the original list, which does not contain it",
+                        String::from_utf8_lossy(&l2[j])
+                    ),
+                    json!({"part": "mktree-root", "n": n, "j": j, "leaves": w.leaves.iter().map(hex::encode).collect::<Vec<_>>(), "leaves_replaced": l2.iter().map(hex::encode).collect::<Vec<_>>()}),
+                )
+            });
+        } else {
+            rep.outcome("mktree:root-unchanged-but-replacement-not-provable");
         }
     }
     rep
